@@ -21,10 +21,10 @@ def gen_inlines(r, depth=0, plain=False, in_link=False, in_em=False, in_strong=F
             # (a delimiter character inside a code span inside emphasis is the known finding C04/codespan-delimiter)
             out.append(("code", r.choice(["code", "a b", "<i>", "a  b", "\\n", "&amp;", "[z]"] + ([] if (in_em or in_strong) else ["x*y", "a_b"]))))
         elif k < 0.79 and not in_link:
-            out.append(("link", gen_inlines(r, depth + 1, plain, True, in_em, in_strong, breaks), r.choice(["/url", "http://e.x/a?b=c", "#frag", "/p/q.html"]),
+            out.append(("link", gen_inlines(r, depth + 1, plain, True, in_em, in_strong, breaks), r.choice(["/url", "http://e.x/a?b=c", "#frag", "/p/q.html", "https://e.x/M_(l)", "/a(b)c", "/caf\u00e9"]),
                         r.choice([None, None, "title", "two words"])))
         elif k < 0.84 and not in_link:
-            out.append(("image", " ".join(r.choice(WORDS) for _ in range(r.randint(1, 2))), r.choice(["/i.png", "http://e.x/i.gif"]), r.choice([None, "t"])))
+            out.append(("image", " ".join(r.choice(WORDS) for _ in range(r.randint(1, 2))), r.choice(["/i.png", "http://e.x/i.gif", "/img/p(1).png"]), r.choice([None, "t"])))
         elif k < 0.88 and not in_link:
             out.append(("autolink", r.choice(["http://e.x/a", "https://e.x/?q=1", "mailto:a@b.co"])))
         elif k < 0.91:
@@ -124,6 +124,11 @@ def gen_blocks(r, depth=0, plain=False, n=None, in_item=False):
 
 
 # ---------------------------------------------------------------- printing
+def dest(url):
+    """a destination that holds parentheses is written in the pointy-bracket form"""
+    return ("<" + url + ">") if ("(" in url or ")" in url) else url
+
+
 def print_inlines(ins):
     out = []
     for x in ins:
@@ -139,9 +144,9 @@ def print_inlines(ins):
             fence = "``" if "`" in c else "`"
             out.append(fence + c + fence)
         elif t == "link":
-            out.append("[" + print_inlines(x[1]) + "](" + x[2] + ((' "%s"' % x[3]) if x[3] else "") + ")")
+            out.append("[" + print_inlines(x[1]) + "](" + dest(x[2]) + ((' "%s"' % x[3]) if x[3] else "") + ")")
         elif t == "image":
-            out.append("![" + x[1] + "](" + x[2] + ((' "%s"' % x[3]) if x[3] else "") + ")")
+            out.append("![" + x[1] + "](" + dest(x[2]) + ((' "%s"' % x[3]) if x[3] else "") + ")")
         elif t == "autolink":
             u = x[1]
             out.append("<" + (u[7:] if u.startswith("mailto:") else u) + ">")
